@@ -33,7 +33,7 @@ class Buffers:
         rs = np.random.RandomState(12)
         d1 = rs.normal(size=(8, 3))
         d1[:4] += 1.5
-        d2 = rs.normal(size=(7, 3)) * 0.75
+        d2 = rs.normal(size=(8, 3)) * 0.75          # same shape as D1 on purpose: a cache keyed by shape must not survive
         d2[3:, :2] -= 1.25
         self.X = {"D1": np.ascontiguousarray(np.round(d1, 3)), "D2": np.ascontiguousarray(np.round(d2, 3))}
         self.kernel = {k: np.ascontiguousarray(x @ x.T) for k, x in self.X.items()}
@@ -123,7 +123,7 @@ SPECS = {
                                        dynamic=False, n_hidden_dim=3, M=2.0),
                           lambda: dict(_C2, kernel="linear", ovo=False, kernel_params=None, groups=None, alpha=0.25, dynamic=False,
                                        n_hidden_dim=2, M=5.0), "kernel"),
-    "CategoricalModel": _spec(lambda: dict(_N1, gemini=_mmd_pre()), lambda: dict(_N2, gemini="mi"), "kernel"),
+    "CategoricalModel": _spec(lambda: dict(_N1, gemini=_mmd_pre()), lambda: dict(_N2, gemini="wasserstein_ova"), "kernel"),
     "CategoricalMMD": _spec(lambda: dict(_N1, kernel="precomputed", ovo=False, kernel_params=None),
                             lambda: dict(_N2, kernel="rbf", ovo=True, kernel_params={"gamma": 0.5}), "kernel"),
     "CategoricalWasserstein": _spec(lambda: dict(_N1, metric="precomputed", ovo=False, metric_params=None),
